@@ -617,6 +617,65 @@ def url_case(ctx, workdir):
             shutil.rmtree(d, ignore_errors=True)
 
 
+def real_clock_and_file_urls(ctx, workdir):
+    """(a) on the real file system and the real clock: an entry is served until its duration is over and not a moment
+    longer because it was looked at; (b) suds text objects come back from the object cache as they went in (their
+    language and escaping marks too); (c) a client whose WSDL lives at a file: URL is built from the warm cache like any
+    other - the file may be gone by then."""
+    import time
+    import suds.cache
+    import suds.client
+    from suds.sax.text import Text
+    for cls, val in ((suds.cache.ObjectCache, {"a": 1}), (suds.cache.DocumentCache, mk_value("document", 1))):
+        d = tempfile.mkdtemp(dir=workdir)
+        c = cls(location=d, seconds=2)
+        ctx.case(("real-clock-expiry", cls.__name__), True)
+        c.put("k", val)
+        t0 = time.time()
+        time.sleep(1.2)
+        first = c.get("k")
+        time.sleep(max(0.0, 2.5 - (time.time() - t0)))
+        second = c.get("k")
+        if second is not None:
+            ctx.fail("an entry past its duration was served (looking at it earlier kept it alive)",
+                     {"class": cls.__name__, "duration_s": 2, "age_s": round(time.time() - t0, 2)}, repr(second)[:80], None)
+    d = tempfile.mkdtemp(dir=workdir)
+    oc = suds.cache.ObjectCache(location=d)
+    texts = [Text("a<b", lang="en", escaped=False), Text("&lt;x&gt;", escaped=True), Text("plain"), Text("fr", lang="fr", escaped=True)]
+    oc.put("texts", {"t": texts})
+    back = (oc.get("texts") or {}).get("t")
+    ctx.case(("text-roundtrip",), True)
+    got = None if back is None else [[str(t), t.lang, bool(t.escaped)] for t in back]
+    want = [[str(t), t.lang, bool(t.escaped)] for t in texts]
+    if got != want:
+        ctx.fail("a lookup returned an object that is not equal to the one stored (text objects)", {"stream": "text-roundtrip"},
+                 got, want)
+    # (c)
+    w = wsdlkit.wsdl_doc('<xsd:element name="f"><xsd:complexType><xsd:sequence><xsd:element name="a" type="xsd:string"/>'
+                         '</xsd:sequence></xsd:complexType></xsd:element>', "f", None)
+    for policy in (0, 1):
+        d = tempfile.mkdtemp(dir=workdir)
+        path = os.path.join(d, "svc.wsdl")
+        with open(path, "wb") as f:
+            f.write(w)
+        cdir = tempfile.mkdtemp(dir=workdir)
+        ctx.case(("file-url", policy), True)
+        try:
+            cold = suds.client.Client("file://" + path, cache=suds.cache.ObjectCache(location=cdir), cachingpolicy=policy,
+                                      nosend=True)
+            want = wsdlkit.envelope_bytes(cold.service.f("v"))
+            os.remove(path)
+            warm = suds.client.Client("file://" + path, cache=suds.cache.ObjectCache(location=cdir), cachingpolicy=policy,
+                                      nosend=True)
+            got = wsdlkit.envelope_bytes(warm.service.f("v"))
+        except Exception as e:
+            got, want = "%s: %s" % (type(e).__name__, str(e)[:200]), "the same request as the cold client"
+        if got != want:
+            ctx.fail("a client over a warm cache fetched again (the document is at a file: URL and gone)",
+                     {"cachingpolicy": policy}, got if isinstance(got, str) else got.decode()[:300],
+                     want if isinstance(want, str) else want.decode()[:300])
+
+
 def read_and_remove_failures(ctx, workdir):
     """A lookup never raises and never serves a stale entry, also when the entry opens but cannot be read (I/O error
     at read), and when an entry past its duration cannot be deleted."""
@@ -794,6 +853,7 @@ def run(ctx):
         stress(ctx, workdir)
         write_failures(ctx, workdir)
         read_and_remove_failures(ctx, workdir)
+        real_clock_and_file_urls(ctx, workdir)
         overwrites_stamps_and_shared_instances(ctx, workdir)
         shared_dir(ctx, workdir)
         url_case(ctx, workdir)
